@@ -613,16 +613,19 @@ func (a *Attacker) hit(tr Targeter, atk *attack) *Result {
 		body = io.LimitReader(r.Body, a.maxBody)
 	}
 
-	if res.Body, err = io.ReadAll(body); err != nil {
+	// The response has arrived, so the request went out in full. The byte
+	// counts are set before the body is read to its end: when reading fails
+	// half way, the result still says how much was sent and captured.
+	if req.ContentLength != -1 {
+		res.BytesOut = uint64(req.ContentLength)
+	}
+
+	res.Body, err = io.ReadAll(body)
+	res.BytesIn = uint64(len(res.Body))
+	if err != nil {
 		return &res
 	} else if _, err = io.Copy(io.Discard, r.Body); err != nil {
 		return &res
-	}
-
-	res.BytesIn = uint64(len(res.Body))
-
-	if req.ContentLength != -1 {
-		res.BytesOut = uint64(req.ContentLength)
 	}
 
 	if res.Code = uint16(r.StatusCode); res.Code < 200 || res.Code >= 400 {
